@@ -294,41 +294,51 @@ func c12Teardown() {
 var c12Known = map[string]bool{"limits": true, "request_id": true, "log": true, "rewrite": true, "gzip": true, "header": true,
 	"errors:plain": true, "errors:page404": true, "errors:visible": true, "status": true, "mime": true, "internal": true, "templates": true}
 
+// c12DirectiveText: the default (one line / one block) spelling of a directive.
+func c12DirectiveText(d string) (string, error) {
+	if !c12Known[d] {
+		return "", errors.New("unknown directive " + d)
+	}
+	switch d {
+	case "limits":
+		return " limits 1MB\n", nil
+	case "request_id":
+		return " request_id\n", nil
+	case "log":
+		return fmt.Sprintf(" log / %s\n", filepath.Join(c12Dir, "access.log")), nil
+	case "rewrite":
+		return " rewrite /c12-old /c12-new.html\n", nil
+	case "gzip":
+		return " gzip\n", nil
+	case "header":
+		return " header / {\n  X-C12 on\n  -X-Inner\n }\n", nil
+	case "errors:plain":
+		return fmt.Sprintf(" errors %s\n", filepath.Join(c12Dir, "errors.log")), nil
+	case "errors:page404":
+		return fmt.Sprintf(" errors %s {\n  404 %s\n }\n", filepath.Join(c12Dir, "errors.log"), filepath.Join(c12Dir, "404.html")), nil
+	case "errors:visible":
+		return " errors visible\n", nil
+	case "status":
+		return " status 403 /c12-forbidden\n", nil
+	case "mime":
+		return " mime .c12 text/c12\n", nil
+	case "internal":
+		return " internal /c12-internal\n", nil
+	case "templates":
+		return " templates\n", nil
+	}
+	return "", errors.New("unknown directive " + d)
+}
+
 func c12Casketfile(stack []string) (string, error) {
 	var b strings.Builder
 	fmt.Fprintf(&b, "http://127.0.0.1:0 {\n root %s\n", c12Dir)
 	for _, d := range stack {
-		if !c12Known[d] {
-			return "", errors.New("unknown directive " + d)
+		t, err := c12DirectiveText(d)
+		if err != nil {
+			return "", err
 		}
-		switch d {
-		case "limits":
-			b.WriteString(" limits 1MB\n")
-		case "request_id":
-			b.WriteString(" request_id\n")
-		case "log":
-			fmt.Fprintf(&b, " log / %s\n", filepath.Join(c12Dir, "access.log"))
-		case "rewrite":
-			b.WriteString(" rewrite /c12-old /c12-new.html\n")
-		case "gzip":
-			b.WriteString(" gzip\n")
-		case "header":
-			b.WriteString(" header / {\n  X-C12 on\n  -X-Inner\n }\n")
-		case "errors:plain":
-			fmt.Fprintf(&b, " errors %s\n", filepath.Join(c12Dir, "errors.log"))
-		case "errors:page404":
-			fmt.Fprintf(&b, " errors %s {\n  404 %s\n }\n", filepath.Join(c12Dir, "errors.log"), filepath.Join(c12Dir, "404.html"))
-		case "errors:visible":
-			b.WriteString(" errors visible\n")
-		case "status":
-			b.WriteString(" status 403 /c12-forbidden\n")
-		case "mime":
-			b.WriteString(" mime .c12 text/c12\n")
-		case "internal":
-			b.WriteString(" internal /c12-internal\n")
-		case "templates":
-			b.WriteString(" templates\n")
-		}
+		b.WriteString(t)
 	}
 	b.WriteString(" probe\n}\n")
 	return b.String(), nil
@@ -340,12 +350,13 @@ func c12Server(stackField string) (*httpserver.Server, error) {
 }
 
 func c12Instance(stackField string) (*httpserver.Server, *casket.Instance, error) {
-	var stack []string
-	if stackField != "" {
-		stack = strings.Split(stackField, ",")
+	key := c12Key(stackField)
+	c12ReqHost = "127.0.0.1"
+	if !c12Legacy(stackField) {
+		if _, h, err := c12SiteText(stackField); err == nil {
+			c12ReqHost = h
+		}
 	}
-	sort.Strings(stack)
-	key := strings.Join(stack, ",")
 	inst := c12Insts[key]
 	if inst == nil {
 		if len(c12Insts) >= 48 { // bound the number of open listeners
@@ -354,7 +365,17 @@ func c12Instance(stackField string) (*httpserver.Server, *casket.Instance, error
 				delete(c12Insts, k)
 			}
 		}
-		text, err := c12Casketfile(stack)
+		var text string
+		var err error
+		if c12Legacy(stackField) {
+			var stack []string
+			if key != "" {
+				stack = strings.Split(key, ",")
+			}
+			text, err = c12Casketfile(stack)
+		} else {
+			text, _, err = c12SiteText(stackField)
+		}
 		if err != nil {
 			return nil, nil, err
 		}
@@ -508,7 +529,7 @@ func c12Observe(srv *httpserver.Server, path, probe string, ae bool, inner []byt
 }
 
 func c12ObserveM(srv *httpserver.Server, method, path, probe string, ae bool, inner []byte) string {
-	r := httptest.NewRequest(method, "http://127.0.0.1"+path, nil)
+	r := httptest.NewRequest(method, "http://"+c12ReqHost+path, nil)
 	if probe != "" {
 		r.Header.Set("X-Probe", probe)
 	}
@@ -533,6 +554,9 @@ func c12ObserveM(srv *httpserver.Server, method, path, probe string, ae bool, in
 	return fmt.Sprintf("%d %d %s %s", w.commits, w.status, cl, c12Body(w, inner))
 }
 
+// the Host the requests of the current case carry (a server block may have several addresses)
+var c12ReqHost = "127.0.0.1"
+
 var c12FollowProbe = c12Write("200", "tok", 0, 1, "w")
 
 // c12FollowUps: the two follow-up requests, observed in full.
@@ -542,6 +566,9 @@ func c12FollowUps(srv *httpserver.Server) string {
 }
 
 func c12Key(stackField string) string {
+	if !c12Legacy(stackField) {
+		return stackField // a configuration as written: the order of the tokens is part of it
+	}
 	var stack []string
 	if stackField != "" {
 		stack = strings.Split(stackField, ",")
@@ -580,8 +607,10 @@ func c12Eval(f []string) (string, []string) {
 	tags := []string{sp[0], "path=" + f[1]}
 	if f[0] == "" {
 		tags = append(tags, "trivial-empty-stack")
-	} else {
+	} else if c12Legacy(f[0]) {
 		tags = append(tags, fmt.Sprintf("wrappers=%d", strings.Count(f[0], ",")+1))
+	} else {
+		tags = append(tags, c12SpellTags(f[0])...)
 	}
 	if strings.Contains(out, "g:") {
 		tags = append(tags, "gzip-coded")
@@ -721,6 +750,8 @@ func c12Gen(g *hx.Gen) {
 		}
 		g.Case(strings.Join(stack, ","), hx.Pick(g.Rng, []string{"html", "bin", "html", "bin", "html-head", "bin-head"}), strconv.Itoa(g.Rng.Intn(2)), in)
 	}
+	// the same behaviours on sites whose directives are written in other ways (c12site.go)
+	c12SpelledGen(g)
 }
 
 // ---- c12.chain: wrapper stacks assembled through the httpserver API ----
@@ -744,6 +775,7 @@ var c12Chains = map[string]*httpserver.Server{}
 
 func c12ChainServer(stackField string) (*httpserver.Server, error) {
 	key := c12Key(stackField)
+	c12ReqHost = "127.0.0.1"
 	if srv := c12Chains[key]; srv != nil {
 		return srv, nil
 	}
@@ -863,7 +895,7 @@ func c12GetM(tr *http.Transport, method, addr, path, probe string, ae bool) (int
 	if err != nil {
 		return 0, "", "", nil, err
 	}
-	req.Host = "127.0.0.1"
+	req.Host = c12ReqHost
 	if probe != "" {
 		req.Header.Set("X-Probe", probe)
 	}
@@ -946,7 +978,11 @@ func c12LiveEval(f []string) (string, []string) {
 	tr2 := &http.Transport{DisableCompression: true}
 	f2 := follow(tr2)
 	tr2.CloseIdleConnections()
-	return out + " " + f1 + " " + f2, []string{sp[0], "live"}
+	tags := []string{sp[0], "live"}
+	if !c12Legacy(f[0]) {
+		tags = append(tags, c12SpellTags(f[0])...)
+	}
+	return out + " " + f1 + " " + f2, tags
 }
 
 func c12LiveGen(g *hx.Gen) {
@@ -990,6 +1026,7 @@ func c12LiveGen(g *hx.Gen) {
 			}
 		}
 	}
+	c12SpelledLiveGen(g)
 }
 
 func init() {
